@@ -302,3 +302,76 @@ func dedupCmd(a map[string]string) {
 		}
 	}
 }
+
+// dedupOnlyProcessor: every stage but de-duplication off (or a no-op on a flat tree).
+func dedupOnlyProcessor() *postprocess.Processor {
+	return postprocess.NewProcessor(
+		postprocess.DisableMergeFields(),
+		postprocess.DisableAddMissingNestedDependencies(),
+		postprocess.DisableCollectAuthorizationCoordinates(),
+		postprocess.DisableCreateConcreteSingleFetchTypes(),
+		postprocess.DisableResolveInputTemplates(),
+		postprocess.DisableOrderSequenceByDependencies(),
+		postprocess.DisableCreateParallelNodes(),
+	)
+}
+
+// realDedup builds the dedup case line of a raw (un-post-processed) synchronous plan.
+func realDedup(pl plan.Plan) (string, bool) {
+	sp, ok := pl.(*plan.SynchronousResponsePlan)
+	if !ok || sp.Response == nil || len(sp.Response.RawFetches) == 0 {
+		return "", false
+	}
+	raw := sp.Response.RawFetches
+	label := make([]int, len(raw))
+	for i := range raw {
+		label[i] = i
+		for j := 0; j < i; j++ {
+			if raw[j].EqualSingleFetch(raw[i]) {
+				label[i] = label[j]
+				break
+			}
+		}
+	}
+	conv := func(it *resolve.FetchItem, lab int) lfetch {
+		d := it.Fetch.Dependencies()
+		f := lfetch{id: d.FetchID, deps: append([]int(nil), d.DependsOnFetchIDs...), req: lab}
+		for _, e := range it.FetchPath {
+			k := "o"
+			if e.Kind == resolve.FetchItemPathElementKindArray {
+				k = "a"
+			}
+			f.path = append(f.path, pathEl{kind: k, path: append([]string(nil), e.Path...), types: append([]string(nil), e.TypeNames...)})
+		}
+		return f
+	}
+	byID := map[int]int{}
+	in := []string{"in"}
+	for i, it := range raw {
+		f := conv(it, label[i])
+		if _, dup := byID[f.id]; !dup {
+			byID[f.id] = label[i]
+		}
+		in = append(in, f.sexp())
+	}
+	outs := func() (res string) {
+		defer func() {
+			if p := recover(); p != nil {
+				res = common.L("panic", common.QS(fmt.Sprint(p)))
+			}
+		}()
+		dedupOnlyProcessor().Process(sp)
+		o := []string{"out"}
+		if sp.Response.Fetches == nil {
+			return common.L("panic", common.QS("no fetch tree"))
+		}
+		for _, c := range sp.Response.Fetches.ChildNodes {
+			if c.Kind != resolve.FetchTreeNodeKindSingle || c.Item == nil || c.Item.Fetch == nil {
+				return common.L("panic", common.QS("tree is not flat after the stage"))
+			}
+			o = append(o, conv(c.Item, byID[c.Item.Fetch.Dependencies().FetchID]).sexp())
+		}
+		return common.L(o...)
+	}()
+	return common.L("c09", "dedup", "real", common.L(in...), outs), true
+}
